@@ -727,7 +727,7 @@ static void run_exact(Tape &t, CaseCtx &ctx, const ModeDesc &md) {
     Abs &d = *V[i];
     const std::string pre = mode + "_" + op + "_";
     auto T = [&](bool tightening, const char *rel) {
-      return tightening ? mode + "_" + rel + "_tightening" : pre + rel;
+      return tightening ? pre + rel + "_tightening" : pre + rel;
     };
     bool emp = m.empty();
     bool isb = d.is_bottom();
@@ -972,17 +972,30 @@ static void run_exact(Tape &t, CaseCtx &ctx, const ModeDesc &md) {
       if (is_join) {
         // ... and the least one: whatever value U of the pool the domain itself
         // places above both operands is above the join
+        // (stated through the domain's own inclusion test, whose COMPLETENESS C12 does not
+        // demand -- leastness itself is decided by the entailment/bounds oracle on the result --
+        // so a 'no' here is a diagnostic unless C12_STRICT_LEQ=1)
         for (int u = 0; u < NV; u++)
-          if (V[a]->leq(*V[u]) && V[b]->leq(*V[u]))
+          if (V[a]->leq(*V[u]) && V[b]->leq(*V[u])) {
+            if (!strict_leq() && !r->leq(*V[u])) {
+              R().diag(mode + "_join_not_least_by_own_leq");
+              continue;
+            }
             CHECK12(ctx, r->leq(*V[u]), mode + "_join_not_least",
                    "A<=U and B<=U but not A|B<=U\n A=" << V[a]->str() << "\n B=" << V[b]->str() << "\n U=" << V[u]->str()
                                                       << "\n A|B=" << r->str());
+          }
       } else {
         for (int u = 0; u < NV; u++)
-          if (V[u]->leq(*V[a]) && V[u]->leq(*V[b]))
+          if (V[u]->leq(*V[a]) && V[u]->leq(*V[b])) {
+            if (!strict_leq() && !V[u]->leq(*r)) {
+              R().diag(mode + "_meet_not_greatest_by_own_leq");
+              continue;
+            }
             CHECK12(ctx, V[u]->leq(*r), mode + "_meet_not_greatest",
                    "L<=A and L<=B but not L<=A&B\n A=" << V[a]->str() << "\n B=" << V[b]->str() << "\n L=" << V[u]->str()
                                                       << "\n A&B=" << r->str());
+          }
       }
       V[i]->assign_from(*r);
       M[i] = mr;
